@@ -372,6 +372,21 @@ example : cfgF.verifyEarly = true ∧ cfgF.fixedChallenge = true ∧ cfgF.fixedE
     (pull cfgF toyHash 0 regAB Scripts.honest st0).1 = .ok () ∧
     (pull cfgF toyHash 0 regAB scF6 st0).1 ≠ .ok () := by decide
 
+/-! ## Resume: Glob order -/
+
+/-- **Resuming does not depend on the order the part records are read in** (the code reads them in
+    `filepath.Glob` order, `-partial-10` before `-partial-2`): for every list of records, the parts
+    `Prepare` resumes from are exactly the stored records (as a multiset) and `b.Total` is the sum
+    of their sizes. -/
+theorem resume_plan_order_independent (ps : List Part) :
+    ((globParts ps).map (·.2)).Perm ps ∧
+    ((globParts ps).map (·.2.size)).sum = (ps.map (·.size)).sum :=
+  ⟨globParts_perm ps, resume_total_order_independent ps⟩
+
+/-- the order itself, for 12 records: lexicographic in the decimal suffix -/
+theorem glob_order_12 :
+    (globParts (List.replicate 12 ⟨0, 1, 0⟩)).map (·.1) = [0, 1, 10, 11, 2, 3, 4, 5, 6, 7, 8, 9] := by decide
+
 /-! ## Retry -/
 
 /-- the registry really has what its manifest names -/
